@@ -152,3 +152,164 @@ Section Claims.
       unfold alloc_sum_amount. apply sumN_map_perm; auto.
   Qed.
 End Claims.
+
+(* ---------- release ---------- *)
+Lemma release_single_groups l : forall g,
+  Forall (fun ix => ai_group ix = 0) l ->
+  release_indices_groups [g] l = match release_indices_single g l with Ok g' => Ok [g'] | Panic s => Panic s | Disabled => Disabled end.
+Proof.
+  induction l as [|ix l IH]; intros g Hf; [reflexivity|].
+  inversion Hf as [|? ? Hg Hf']; subst. cbn [release_indices_groups release_indices_single].
+  rewrite Hg, get_at_single, N.eqb_refl. cbn [negb bind].
+  destruct (release_index g ix); cbn [bind]; auto.
+  change (set_at [g] 0 a) with [a]. apply IH; auto.
+Qed.
+
+Lemma release_PoolCore p0 p H' taken ra p' :
+  PoolCore p0 p (H' ++ ra_indices ra) (taken + (if pool_is_sum p then ra_amount ra else 0)) ->
+  pool_release p ra = Ok p' -> PoolCore p0 p' H' taken.
+Proof.
+  intros (K & F & C) Hr. destruct p as [|f g|f gs|f free]; simpl in Hr; try discriminate.
+  - destruct C as [HG Hb]. apply Forall_app in Hb. destruct Hb as [Hb1 Hb2]. simpl pool_groups in *.
+    assert (HG' : GsI (pool_us p0) [g] (hsum (H' ++ rev (ra_indices ra))) (hfany (H' ++ rev (ra_indices ra)))).
+    { eapply GsI_perm; [|eauto]. apply Permutation_app_head. apply Permutation_rev. }
+    destruct (release_list _ _ _ _ HG') as (gs' & A & B & L).
+    { apply Forall_rev. auto. }
+    rewrite release_single_groups in A.
+    2:{ apply Forall_rev. rewrite Forall_forall in *. intros ix Hin. destruct (Hb2 ix Hin) as [_ X]. unfold len in X; simpl in X. lia. }
+    destruct (release_indices_single g (rev (ra_indices ra))) as [g'| |]; simpl in Hr; try discriminate.
+    inversion Hr; subst p'. inversion A; subst gs'. split; [auto|]. split; [auto|]. simpl. split; [auto|].
+    rewrite Forall_forall in *; intros ix Hin; destruct (Hb1 ix Hin); unfold len in *; simpl in *; auto.
+  - destruct C as [HG Hb]. apply Forall_app in Hb. destruct Hb as [Hb1 Hb2]. simpl pool_groups in *.
+    assert (HG' : GsI (pool_us p0) gs (hsum (H' ++ rev (ra_indices ra))) (hfany (H' ++ rev (ra_indices ra)))).
+    { eapply GsI_perm; [|eauto]. apply Permutation_app_head. apply Permutation_rev. }
+    destruct (release_list _ _ _ _ HG') as (gs' & A & B & L).
+    { apply Forall_rev. auto. }
+    rewrite A in Hr. simpl in Hr. inversion Hr; subst p'. split; [auto|]. split; [auto|]. simpl. split; [auto|].
+    assert (len gs' = len gs) by (unfold len; rewrite L; auto).
+    rewrite Forall_forall in *. intros ix Hin. destruct (Hb1 ix Hin). split; auto. lia.
+  - destruct C as [C1 C2]. apply app_eq_nil in C2. destruct C2 as [C2 C3].
+    destruct (N.ltb_spec f (free + ra_amount ra)); try discriminate.
+    destruct (len (ra_indices ra) =? 0); simpl in Hr; try discriminate. inversion Hr; subst p'.
+    split; [auto|]. split; [auto|]. simpl in *. split; [lia|auto].
+Qed.
+
+Lemma release_helper_core pools0 al : forall pools Hb Tb pools',
+  PoolsCore pools0 pools (fun r => Hb r ++ flat_al al r) (fun r => Tb r + sum_taken pools0 al r) ->
+  release_helper pools al = Ok pools' -> PoolsCore pools0 pools' Hb Tb.
+Proof.
+  induction al as [|ra al IH]; intros pools Hb Tb pools' HP Hr; simpl in Hr.
+  - inversion Hr; subst. eapply PoolsCore_ext; [| |exact HP]; intros r; cbv beta.
+    + unfold flat_al. simpl. rewrite app_nil_r. auto.
+    + unfold sum_taken, alloc_sum_amount. simpl. destruct (nth_error pools0 (nat_of r)); [destruct (pool_is_sum p)|]; rewrite ?sumN_nil; lia.
+  - destruct (get_at pools (ra_res ra)) as [p| |] eqn:Eg; simpl in Hr; try discriminate.
+    destruct (pool_release p ra) as [p'| |] eqn:Er; simpl in Hr; try discriminate.
+    eapply IH; [|eauto].
+    pose proof Eg as Eg'. apply get_at_ok in Eg'. destruct Eg' as [Hlt Hnth].
+    destruct HP as [L HP]. split; [rewrite set_at_length; auto|].
+    intros r p0 q Hr0 H0 H1. rewrite nth_error_set_at in H1.
+    destruct (N.ltb_spec (ra_res ra) (len pools)); [|lia]. simpl in H1.
+    destruct (Nat.eqb_spec (nat_of (ra_res ra)) (nat_of r)) as [E|E].
+    + apply nat_of_inj in E. subst r. inversion H1; subst q.
+      specialize (HP _ _ _ Hr0 H0 Hnth). cbv beta in HP.
+      eapply release_PoolCore; [|eauto].
+      eapply PoolCore_perm with (H := Hb (ra_res ra) ++ flat_al (ra :: al) (ra_res ra)).
+      * change (ra :: al) with ([ra] ++ al). rewrite flat_al_app, flat_al_one. unfold one_ra. rewrite N.eqb_refl.
+        rewrite <- app_assoc. apply Permutation_app_head. apply Permutation_app_comm.
+      * destruct HP as (K & F & C). split; auto. split; auto.
+        change (ra :: al) with ([ra] ++ al) in C. rewrite sum_taken_app in C.
+        replace (Tb (ra_res ra) + sum_taken pools0 al (ra_res ra) + (if pool_is_sum p then ra_amount ra else 0))
+          with (Tb (ra_res ra) + (sum_taken pools0 [ra] (ra_res ra) + sum_taken pools0 al (ra_res ra))); auto.
+        unfold sum_taken at 1. rewrite H0. rewrite <- (same_kind_sum _ _ K).
+        unfold alloc_sum_amount. cbn [map]. rewrite sumN_cons, sumN_nil, N.eqb_refl. destruct (pool_is_sum p); lia.
+    + specialize (HP _ _ _ Hr0 H0 H1). cbv beta in HP.
+      change (ra :: al) with ([ra] ++ al) in HP. rewrite flat_al_app, flat_al_one, sum_taken_app in HP.
+      unfold one_ra in HP. destruct (N.eqb_spec (ra_res ra) r); [subst; congruence|]. simpl in HP.
+      replace (sum_taken pools0 [ra] r) with 0 in HP; [rewrite N.add_0_l in HP; auto|].
+      unfold sum_taken, alloc_sum_amount. cbn [map]. rewrite sumN_cons, sumN_nil.
+      destruct (nth_error pools0 (nat_of r)); auto. destruct (pool_is_sum p1); auto.
+      destruct (N.eqb_spec (ra_res ra) r); [congruence|lia].
+Qed.
+
+(* ---------- the system ---------- *)
+Definition HL (live : list allocation) (r : N) : list aidx := flat_live live r.
+Definition TL (pools0 : list pool) (live : list allocation) (r : N) : N := sumN (map (fun al => sum_taken pools0 al r) live).
+
+Definition CoreInv (pools0 : list pool) (s : sys) : Prop :=
+  PoolsCore pools0 (a_pools (s_alloc s)) (HL (s_live s)) (TL pools0 (s_live s)).
+
+Lemma HL_app live al r : HL (live ++ [al]) r = HL live r ++ flat_al al r.
+Proof. unfold HL, flat_live. rewrite flat_map_app'. simpl. rewrite app_nil_r. auto. Qed.
+Lemma TL_app pools0 live al r : TL pools0 (live ++ [al]) r = TL pools0 live r + sum_taken pools0 al r.
+Proof. unfold TL. rewrite map_app, sumN_app. cbn [map]. rewrite sumN_cons, sumN_nil. lia. Qed.
+
+Lemma claim_resources_core pools0 a live rq w pools' al :
+  PoolsCore pools0 (a_pools a) (HL live) (TL pools0 live) ->
+  claim_resources a rq w = Ok (pools', al) ->
+  PoolsCore pools0 pools' (HL (live ++ [al])) (TL pools0 (live ++ [al])).
+Proof.
+  intros HP Hc. unfold claim_resources in Hc.
+  destruct (claim_direct (a_pools a) rq w [] []) as [[[pools acc] coupling]| |] eqn:Ed; simpl in Hc; try discriminate.
+  assert (HA0 : Acc pools0 (HL live) (TL pools0 live) (a_pools a) []).
+  { split; [|constructor]. eapply PoolsCore_ext; [| |exact HP]; intros r; cbv beta.
+    - unfold flat_al. simpl. rewrite app_nil_r. auto.
+    - unfold sum_taken, alloc_sum_amount. simpl. destruct (nth_error pools0 (nat_of r)); [destruct (pool_is_sum p)|]; rewrite ?sumN_nil; lia. }
+  pose proof (claim_direct_Acc _ _ _ _ _ _ _ _ _ _ _ HA0 Ed) as HA1.
+  assert (Fin : forall pools' al, Acc pools0 (HL live) (TL pools0 live) pools' al ->
+                                  PoolsCore pools0 pools' (HL (live ++ [al])) (TL pools0 (live ++ [al]))).
+  { intros ps x [HX _]. eapply PoolsCore_ext; [| |exact HX]; intros r; cbv beta; rewrite ?HL_app, ?TL_app; auto. }
+  destruct coupling as [|e coupling].
+  - inversion Hc; subst. auto.
+  - destruct (group_solver (a_free a) (e :: coupling) (a_weights a) true (w_mask w)) as [[[masks obj]|]| |]; cbn [bind] in Hc; try discriminate.
+    destruct (claim_coupled pools (e :: coupling) masks w acc) as [[pools2 acc2]| |] eqn:Ec; cbn [bind] in Hc; try discriminate.
+    inversion Hc; subst. apply Fin. eapply Acc_perm; [apply Permutation_sym, isort_perm|].
+    eapply claim_coupled_Acc; eauto.
+Qed.
+
+Lemma flat_live_remove live k al r :
+  nth_error live k = Some al -> Permutation (flat_live live r) (flat_live (remove_nth live k) r ++ flat_al al r).
+Proof.
+  revert k; induction live as [|x live IH]; intros [|k] H; simpl in *; try discriminate.
+  - inversion H; subst. apply Permutation_app_comm.
+  - rewrite <- app_assoc. apply Permutation_app_head. auto.
+Qed.
+
+Lemma TL_remove pools0 live k al r :
+  nth_error live k = Some al -> TL pools0 live r = TL pools0 (remove_nth live k) r + sum_taken pools0 al r.
+Proof.
+  unfold TL. revert k; induction live as [|x live IH]; intros [|k] H; simpl in *; try discriminate.
+  - inversion H; subst. rewrite sumN_cons. lia.
+  - rewrite !sumN_cons. rewrite (IH k H). lia.
+Qed.
+
+Lemma step_core pools0 s o s' out : CoreInv pools0 s -> step s o = Ok (s', out) -> CoreInv pools0 s'.
+Proof.
+  unfold CoreInv. intros HI Hs. destruct o as [rq w|k|rq w]; simpl in Hs.
+  - unfold try_allocate in Hs.
+    destruct (has_resources (s_alloc s) rq w) as [[ok yard]| |]; simpl in Hs; try discriminate.
+    destruct ok; simpl in Hs.
+    + destruct (claim_resources _ rq w) as [[pools al]| |] eqn:Ec; simpl in Hs; try discriminate.
+      destruct (cf_remove (a_free (s_alloc s)) al); simpl in Hs; try discriminate.
+      inversion Hs; subst; simpl. eapply claim_resources_core; [|exact Ec]. simpl. auto.
+    + inversion Hs; subst; simpl. auto.
+  - destruct (k <? len (s_live s)); try discriminate.
+    destruct (nth_error (s_live s) (nat_of k)) as [al|] eqn:En; try discriminate.
+    unfold release_allocation in Hs.
+    destruct (cf_add (a_free (s_alloc s)) al); simpl in Hs; try discriminate.
+    destruct (release_helper (a_pools (s_alloc s)) al) as [pools'| |] eqn:Er; simpl in Hs; try discriminate.
+    inversion Hs; subst; simpl. eapply release_helper_core; [|exact Er].
+    eapply PoolsCore_ext; [| |exact HI]; intros r; cbv beta.
+    + unfold HL. apply flat_live_remove; auto.
+    + apply TL_remove; auto.
+  - unfold is_enabled in Hs.
+    destruct (has_resources (s_alloc s) rq w) as [[ok yard]| |]; simpl in Hs; try discriminate.
+    inversion Hs; subst; simpl. auto.
+Qed.
+
+Lemma run_core pools0 ops : forall s s', CoreInv pools0 s -> run s ops = Ok s' -> CoreInv pools0 s'.
+Proof.
+  induction ops as [|o ops IH]; intros s s' HI Hr; simpl in Hr.
+  - inversion Hr; subst; auto.
+  - destruct (step s o) as [[s1 out]| |] eqn:Es; simpl in Hr; try discriminate.
+    eapply IH; [|eauto]. eapply step_core; eauto.
+Qed.
